@@ -142,8 +142,9 @@ class Explorer:
             try:
                 mscn, mout = self.minimise_fn(self, scn, out, cls)
             except Exception as e:
-                self.report.engine_errors.append("minimiser failed: %r" % (e,))
-                return
+                # (e.g. a shrunk schedule that is not feasible): report the violation as found, unminimised
+                common.say("[%s] minimiser gave up (%s): reporting the scenario as found" % (self.prop, str(e)[:200].replace("\n", " ")))
+                mscn, mout = scn, out
         # gate: the minimised scenario must reproduce the same class with the same event log, twice
         a = self.run1(mscn)
         b = self.run1(mscn)
